@@ -77,7 +77,8 @@ def gen_enc(rng, n, big=False):
     return out
 
 
-HOSTILE_LENS = [0, 1, MAXF - 1, MAXF, MAXF + 1, 1 << 20, 1 << 24, 1 << 31, (1 << 32) - 1]
+# the giant values are rare: if the length check ever moved after the allocation each would cost gigabytes
+HOSTILE_LENS = [0, 1, MAXF - 1, MAXF, MAXF + 1, MAXF + 1, 1 << 17, 1 << 20, 1 << 20, 1 << 24] * 4 + [1 << 31, (1 << 32) - 1]
 
 
 def gen_dec(rng, wires, per):
@@ -183,7 +184,7 @@ def gen_stream_hostile(rng, n):
         ops = [{"k": "w", "w": 0, "data": rand_bytes(rng, rng.choice([1, 4, 100])).hex()}]
         k = rng.randrange(4)
         if k == 0:     # oversized length field, then more traffic
-            raw = pad16(b"h") + bytes([rng.choice([1, 3, 9, 7])]) + rng.choice(HOSTILE_LENS[4:]).to_bytes(4, "big") + rng.randbytes(rng.randrange(0, 60))
+            raw = pad16(b"h") + bytes([rng.choice([1, 3, 9, 7])]) + rng.choice([x for x in HOSTILE_LENS if x > MAXF]).to_bytes(4, "big") + rng.randbytes(rng.randrange(0, 60))
         elif k == 1:   # truncated header at the end of the connection
             raw = rng.randbytes(rng.randrange(1, 21))
         elif k == 2:   # truncated payload
